@@ -10,10 +10,10 @@ echo "[setup] translator"
 echo "[setup] lean library"
 (cd lean && for t in $(python3 -c "
 import json
-r=json.load(open('../registry.json'))
+import os; r={f[:-5]:json.load(open('../registry.d/'+f)) for f in os.listdir('../registry.d') if f.endswith('.json')}
 s=[]
 for k,v in r.items():
-    for t in v['lean_targets']+['DymVerif.Driver.'+v.get('driver',k)]:
+    for t in v['lean_targets']+['DymVerif.Driver.'+v.get('driver',k)]+['DymVerif.Driver.'+a['driver'] for a in v.get('also',[])]:
         if t not in s: s.append(t)
 print(' '.join(s))"); do lake build $t 2>&1 | tail -3; done)
 echo "[setup] harness"
